@@ -31,6 +31,7 @@ import (
 	"github.com/cloudflare/circl/hpke"
 	"github.com/cloudflare/circl/kem"
 	kemschemes "github.com/cloudflare/circl/kem/schemes"
+	"github.com/cloudflare/circl/kem/sike/sikep434"
 	"github.com/cloudflare/circl/oprf"
 	"github.com/cloudflare/circl/sign"
 	"github.com/cloudflare/circl/sign/bls"
@@ -561,6 +562,7 @@ func init() {
 			}
 		}
 	}
+	reg(kemFam(sikep434.Scheme()), 2) // deprecated, not in kem/schemes, still shipped
 	reg(registryFam(), 6)
 	reg(tknFam(), 2)
 	reg(coldFam(), 8)
